@@ -209,6 +209,18 @@ def check_clip(spec, ctx):
             i = int(np.argmax(np.abs(t - ideal)))
             ctx.fail(f"frame {i} carries time {t[i]!r}, expected (offset+i)/samplerate = {ideal[i]!r}", spec, float(t[i]), float(ideal[i]), kind="time_axis")
     check_axis(ctx, spec, arr, "time", "load_clip", first_expected=match / sr if n else None, tol_first=1e-6 / sr)
+    # results belong to the caller: loading another clip of the same length afterwards must not change the array just returned
+    keep = np.array(arr.values, copy=True)
+    other_start = max(0.0, start - (n / sr) / 2) if start > 0 else (n / sr) / 3
+    other = data.Clip(uuid=str(uuidlib.UUID(int=5)), recording=clip.recording, start_time=other_start, end_time=other_start + (end - start))
+    try:
+        arr2 = audio.load_clip(other, **kw)
+    except Exception:
+        arr2 = None
+    if not np.array_equal(np.asarray(arr.values), keep):
+        ctx.fail("the array returned by load_clip changed when another clip was loaded afterwards (results share a buffer)", spec, None, None, kind="result_aliased")
+    if arr2 is not None and arr2.shape == arr.shape and np.shares_memory(np.asarray(arr2.values), np.asarray(arr.values)):
+        ctx.fail("two load_clip results share memory", spec, None, None, kind="result_aliased")
     if spec["rec"].get("dur_round"):
         # load_recording lays its time axis out from Recording.duration and refuses metadata that disagree with the file:
         # stated assumption of that function, not of load_clip
@@ -248,9 +260,9 @@ def derive_case(draw):
     for _ in ops:
         wmode = draw(st.sampled_from(["whole", "frac"]))
         ws = draw(st.integers(4, 256))
-        hs = draw(st.integers(1, ws))
+        hs = draw(st.one_of(st.integers(1, ws), st.integers(1, ws), st.integers(ws + 1, 3 * ws)))  # also sparse frames: hop longer than the window
         wf, hf = (0.0, 0.0) if wmode == "whole" else (draw(st.sampled_from([0.0, 0.25, 0.5, 0.9])), draw(st.sampled_from([0.1, 0.25, 0.5, 0.9])))
-        wins.append([ws + wf, hs + hf if hs + hf <= ws + wf else float(hs)])
+        wins.append([ws + wf, hs + hf if (hs + hf <= ws + wf or hs > ws) else float(hs)])
     spec = {"rec": rs, "a": a, "off": off, "length": length, "ops": ops, "targets": targets, "wins": wins, "whole_recording": draw(st.integers(0, 3)) == 0,
             "sample_dtype": draw(st.sampled_from([None, None, "float32"])),
             # a time slice cut off the loaded array before it is processed (xarray keeps coordinate attributes through isel) and
